@@ -35,7 +35,9 @@ LEVEL = {
                "own buffer is re-checked after acquiring the lock; (R09.3) pull-completion -> append to every live "
                "buffer has no suspension point and covers the whole shared list; (R09.4) append/popleft at opposite "
                "ends, yield by a removing read; (R09.5) each child owns a distinct element of the shared list; (R09.6) "
-               "finished children drop their buffer, the last closes the source; (R09.7) no other writer.",
+               "finished children drop their buffer, the last closes the source; (R09.7) no other writer; (R09.8) the caller's "
+               "lock is replaced by the no-op lock only when it is None (never by truthiness); (R09.2) also: buffered items "
+               "are served without requesting the lock.",
     "not_decided": "the schedule-quantified conclusion itself (every child yields the source sequence in order under "
                    "every interleaving) — it follows from these premises by the atomicity argument written in DESIGN.md, "
                    "which the tool does not check.",
